@@ -56,6 +56,7 @@ type State struct {
 	trail    []string // human-readable path description
 	labels   map[string]*State // labelled snapshots (loop entry etc.)
 	lastCallRets []Value
+	assumeTo     *State // facts learned while evaluating in this (old) state go here
 }
 
 func (e *Engine) newState() *State {
@@ -131,6 +132,10 @@ func (st *State) clone() *State {
 
 func (st *State) assume(t Term) {
 	if t.S == "true" {
+		return
+	}
+	if st.assumeTo != nil {
+		st.assumeTo.assume(t)
 		return
 	}
 	if st.known[t.S] {
